@@ -1,1 +1,114 @@
-/-! Property theorems for C19 (stub: not built yet). -/
+import UsualProofs.C01.CapOps
+/-!
+# C19 — talloc memory limit is a hard cap whose accounting never drifts
+
+Theorems about the memlimit part of the executable talloc model (`Usual.C01`, shared with C01):
+`.memlimit` chunk = `Obj` of `Kind.limit` with `{lmax, lcur}`, flags `useLim` / `hasLim`,
+`applyLim` = `apply_memlimit(_marked)`, `walk` = `memlimit_walk`, `moveMemlimit`, `setLimit`.
+`Cfg.fixed` is the code repaired by fixes/F14-talloc-memlimit-accounting.patch (+ F15); the
+accounting of the code as pinned (`Cfg.old`) is refuted by the `…_old_counterexample`s, each a
+history replayed on the real library by the correspondence run (corpus/C19/*.ops).
+
+`acctOK : State → Bool` (lean/Usual/C01/Observe.lean) is THE accounting invariant: every
+`.memlimit` chunk records exactly Σ (ALIGN(size) + sizeof header) over the chunks beneath its
+context (the chunk itself excepted).  The driver evaluates it on every state of every run.
+-/
+namespace UsualProps.C19
+open Usual.C01
+set_option maxRecDepth 100000
+
+/-- a limited context `1` (limit 10000) and an unlimited sibling `2` under a common top `0` -/
+def setup : List Op :=
+  [.alloc none 0 false false, .alloc (some 0) 0 false false, .alloc (some 0) 0 false false,
+   .setLimit 1 10000 false]
+
+/-- **hard_cap**: `talloc_size(ctx, n)` is admitted if and only if `n ≤ TALLOC_MAXLEN` and the
+charge `ALIGN(n) + sizeof(struct THeader)` fits under EVERY limit `apply_memlimit` finds on the
+way up from `ctx` (`limitsAbove`): a request that would exceed any enclosing limit fails. -/
+theorem hard_cap (cfg : Cfg) (s : State) (ctx : Option Id) (n : Nat) :
+    admits cfg s ctx n = true ↔
+      n ≤ MAXLEN ∧ (limitsAbove cfg s.fuel s (orNull s ctx)).all (fits s (totalSize n)) = true :=
+  admits_iff cfg s ctx n
+
+example :
+    let s := runOps Cfg.fixed {} setup
+    limitsAbove Cfg.fixed s.fuel s (some 1) = [3] ∧ admits Cfg.fixed s (some 1) 9912 = true ∧
+    admits Cfg.fixed s (some 1) 9913 = false := by decide
+
+/-- **failed_request_changes_nothing** (refused by a limit): the call answers NULL and the
+state — every object, every counter, the log — is identical. -/
+theorem failed_request_changes_nothing (cfg : Cfg) (s : State) (parent : Option Id) (n : Nat)
+    (fromCx fail : Bool) (h : admits cfg s parent n = false) :
+    step cfg s (.alloc parent n fromCx fail) = (s, -1) :=
+  alloc_refused_unchanged cfg s parent n fromCx fail h
+
+example : admits Cfg.fixed (runOps Cfg.fixed {} setup) (some 1) 20000 = false := by decide
+
+/-- **failed_request_changes_nothing** (the request fits but the underlying allocator fails):
+the charge taken before the allocation is rolled back — NULL, and every object including every
+memlimit counter is as before (in every well-formed state with acyclic holder graph). -/
+theorem failed_allocation_changes_nothing (s : State) (rk : Nat → Nat) (hwf : wfOK s = true)
+    (hrk : Ranked rk s) (parent : Option Id) (n : Nat) (fromCx : Bool) :
+    (step Cfg.fixed s (.alloc parent n fromCx true)).2 = -1 ∧
+    (step Cfg.fixed s (.alloc parent n fromCx true)).1.nullCtx = s.nullCtx ∧
+    ∀ j : Nat, (step Cfg.fixed s (.alloc parent n fromCx true)).1.get j = s.get j :=
+  alloc_failure_unchanged Cfg.fixed s ((wfOK_iff s).1 hwf) hrk parent n fromCx
+
+example :
+    let s := runOps Cfg.fixed {} setup
+    (step Cfg.fixed s (.alloc (some 1) 100 false true)).1.heap = s.heap := by decide
+
+/-! ## the accounting of the code as pinned drifts (F14) -/
+
+/-- alloc under the limit, steal out: the header's 88 bytes stay charged for ever — the same
+configuration (empty limited context) admits 9912 bytes before and 9824 after. -/
+theorem no_drift_old_counterexample :
+    maxAdmissible Cfg.old (runOps Cfg.old {} setup) (some 1) = some 9912 ∧
+    maxAdmissible Cfg.old (runOps Cfg.old {} (setup ++ [.alloc (some 1) 1000 false false, .steal (some 2) 4]))
+      (some 1) = some 9824 := by decide
+
+/-- the repaired code gives the headroom back -/
+example :
+    maxAdmissible Cfg.fixed (runOps Cfg.fixed {} (setup ++ [.alloc (some 1) 1000 false false, .steal (some 2) 4]))
+      (some 1) = some 9912 := by decide
+
+/-- the accounting invariant is false for the code as pinned … -/
+theorem cur_eq_charge_old_counterexample :
+    acctOK (runOps Cfg.old {} (setup ++ [.alloc (some 1) 1000 false false, .steal (some 2) 4])) = false := by
+  decide
+
+/-- … also by realloc (charged `Δsize`, released `ALIGN(size)+header`) … -/
+theorem realloc_units_old_counterexample :
+    acctOK (runOps Cfg.old {} (setup ++ [.alloc (some 1) 16 false false, .realloc (some 1) 4 9 false])) = false := by
+  decide
+
+/-- … a limit set on a context with a child does not see that child, and allocations below the
+child are not capped at all (100000 bytes under a limit of 2000) … -/
+theorem hard_cap_old_counterexample :
+    let s := runOps Cfg.old {} [.alloc none 0 false false, .alloc (some 0) 0 false false,
+      .alloc (some 1) 1000 false false, .setLimit 1 2000 false]
+    acctOK s = false ∧ admits Cfg.old s (some 2) 100000 = true ∧ admits Cfg.fixed s (some 1) 100000 = false := by
+  decide
+
+/-- … freeing an inner limited context leaves its charge in the outer limit … -/
+theorem nested_free_old_counterexample :
+    acctOK (runOps Cfg.old {} [.alloc none 0 false false, .alloc (some 0) 0 false false,
+      .setLimit 1 100000 false, .alloc (some 1) 0 false false, .setLimit 3 50000 false,
+      .alloc (some 3) 1000 false false, .free 3]) = false := by decide
+
+/-- … and an object promoted to a referencing context outside the limit stays charged. -/
+theorem moved_in_charge_released_old_counterexample :
+    acctOK (runOps Cfg.old {} (setup ++ [.alloc (some 1) 0 false false, .alloc (some 4) 1000 false false,
+      .reference (some 2) 5 false, .free 4])) = false := by decide
+
+/-- the repaired code keeps the invariant on all these histories -/
+example :
+    acctOK (runOps Cfg.fixed {} (setup ++ [.alloc (some 1) 1000 false false, .steal (some 2) 4])) = true ∧
+    acctOK (runOps Cfg.fixed {} (setup ++ [.alloc (some 1) 16 false false, .realloc (some 1) 4 9 false])) = true ∧
+    acctOK (runOps Cfg.fixed {} [.alloc none 0 false false, .alloc (some 0) 0 false false,
+      .setLimit 1 100000 false, .alloc (some 1) 0 false false, .setLimit 3 50000 false,
+      .alloc (some 3) 1000 false false, .free 3]) = true ∧
+    acctOK (runOps Cfg.fixed {} (setup ++ [.alloc (some 1) 0 false false, .alloc (some 4) 1000 false false,
+      .reference (some 2) 5 false, .free 4])) = true := by decide
+
+end UsualProps.C19
